@@ -1,3 +1,4 @@
+import AdeuModel.Lemmas.LGrow
 import AdeuModel.Lemmas.ComGrow
 import AdeuModel.Lemmas.Engine
 import AdeuModel.Lemmas.Grow
@@ -74,5 +75,11 @@ theorem C10_comment_ids_stay_unique_actions (d : Document) (author date : Str) (
 example : (([{ id := "1".toList, author := none, date := none, initials := none, paras := [], legacyParent := none, doneAttr := none },
              { id := "x7".toList, author := none, date := none, initials := none, paras := [], legacyParent := none, doneAttr := none }] :
              List Comment).map (·.id)).Nodup := by decide
+
+/-- replies keep the comment parts linked: the reply's entry in commentsExtended (which carries the thread link)
+sits at the position of the reply's comment entry -/
+theorem C10_comment_parts_stay_linked_actions (d : Document) (author date : Str) (acts : List Action) (h : DocLinked d) :
+    DocLinked ((Sess.open d author date).applyActions acts).1.doc :=
+  comment_parts_stay_linked_actions d author date acts h
 
 end Adeu.Props.C10
